@@ -48,3 +48,59 @@ theorem C17_shift_invariance (shape periodic : List Nat) (a k : Nat) (ha : perio
         (cs.map (P10.critRename (P19.liftC shape shape (shiftC shape a k)))))
         (order.map (P19.liftC shape shape (shiftC shape a k)))) :=
   P19.shift_invariance shape periodic a k ha val order cs horder hseeds val' hval
+
+section Ties
+open Tree
+/-! ## Ties: what does not depend on the order in which equal values are processed
+
+With ties the forest depends on the (unspecified) order `np.argsort` leaves equal values in, and
+that order is not equivariant under a cyclic shift.  What the property promises "in general" is
+order-independent for criteria that can only turn true as a structure grows. -/
+
+/-- **C17 / C16 (ties: assigned pixels).** For `min_delta`, `min_npix`, `min_peak`, `contains_seeds`
+and `min_sum` on non-negative data (`P32.MonoCrit`), any symmetric adjacency, and any two
+permutations `o₁`, `o₂` of the same duplicate-free set of above-threshold pixels (in particular the
+two non-increasing orders of the original and of the shifted / relabelled run, mapped back): the
+sets of pixels that `compute` assigns are the same. -/
+theorem C17_assigned_order_independent (val : Nat → Int) (nbrs : Nat → List Nat) (cs : List Crit)
+    (o₁ o₂ : List Nat) (hsym : ∀ x y, y ∈ nbrs x → x ∈ nbrs y) (hperm : o₁.Perm o₂) (hnd : o₁.Nodup)
+    (hm : ∀ c ∈ cs, P32.MonoCrit val (fun x => x ∈ o₁) c) :
+    ∀ p, p ∈ pixelsL (makeTrunk (envOf val nbrs cs) (run (envOf val nbrs cs) o₁)) ↔
+      p ∈ pixelsL (makeTrunk (envOf val nbrs cs) (run (envOf val nbrs cs) o₂)) :=
+  P32.assigned_order_independent' val nbrs cs o₁ o₂ hsym hperm hnd hm
+
+/-- **C17 / C16 (ties: trunk regions).** Under the same hypotheses every surviving parentless
+structure of one run has the same pixel set as a surviving parentless structure of the other. -/
+theorem C17_trunk_regions_order_independent (val : Nat → Int) (nbrs : Nat → List Nat) (cs : List Crit)
+    (o₁ o₂ : List Nat) (hsym : ∀ x y, y ∈ nbrs x → x ∈ nbrs y) (hperm : o₁.Perm o₂) (hnd : o₁.Nodup)
+    (hm : ∀ c ∈ cs, P32.MonoCrit val (fun x => x ∈ o₁) c) :
+    ∀ t₁ ∈ makeTrunk (envOf val nbrs cs) (run (envOf val nbrs cs) o₁),
+      ∃ t₂ ∈ makeTrunk (envOf val nbrs cs) (run (envOf val nbrs cs) o₂), t₁.pixels.Perm t₂.pixels :=
+  P32.trunk_regions_order_independent' val nbrs cs o₁ o₂ hsym hperm hnd hm
+
+/-- **C17 (what decides survival).** A parentless structure survives the trunk step iff the
+criteria hold for its region taken as one leaf — a function of the pixel set alone. -/
+theorem C17_root_survives_iff (val : Nat → Int) (nbrs : Nat → List Nat) (cs : List Crit) (order : List Nat)
+    (hnd : order.Nodup) (hsorted : order.Pairwise (fun a b => val b ≤ val a))
+    (hm : ∀ c ∈ cs, P32.MonoCrit val (fun x => x ∈ order) c) :
+    ∀ t ∈ run (envOf val nbrs cs) order,
+      (t ∈ makeTrunk (envOf val nbrs cs) (run (envOf val nbrs cs) order) ↔ P32.regionOK val cs t.pixels = true) :=
+  P32.root_survives_iff val nbrs cs order hnd hsorted hm
+
+/-- **C17 (known finding K5, the hypothesis cannot be dropped).** `min_sum(-2)` on the periodic row
+`-3 -2 -3 -2 -3`: the two admissible orders `[1,3,2,0,4]` and `[1,3,0,2,4]` assign different sets
+of pixels (all five / none). The implementation shows both behaviours on the array and on the
+array rolled by one (replayed by the check, corpus `C17/k5_min_sum_ties.json`). -/
+theorem C17_K5_witness :
+    P32.Ex.oB₁.Perm P32.Ex.oB₂ ∧ sortedDesc P32.Ex.vB P32.Ex.oB₁ = true ∧ sortedDesc P32.Ex.vB P32.Ex.oB₂ = true ∧
+    pixelsL (makeTrunk P32.Ex.EB (run P32.Ex.EB P32.Ex.oB₁)) = [2, 0, 4, 1, 3] ∧
+    pixelsL (makeTrunk P32.Ex.EB (run P32.Ex.EB P32.Ex.oB₂)) = [] := by decide
+
+/-- **C17 / C16 (ties: number of leaves without pruning).** Without pruning the number of leaves is
+the same for any two admissible orders (it is the number of plateau-aware regional maxima). -/
+theorem C17_leaf_count_order_independent (E : Env) (hsym : ∀ x y, y ∈ E.nbrs x → x ∈ E.nbrs y)
+    (hno : ∀ t p v, E.indep t p v = true) (o₁ o₂ : List Nat) (hperm : o₁.Perm o₂) (hnd : o₁.Nodup)
+    (hs₁ : o₁.Pairwise (fun a b => E.val b ≤ E.val a)) (hs₂ : o₂.Pairwise (fun a b => E.val b ≤ E.val a)) :
+    (P34.leavesOf (run E o₁)).length = (P34.leavesOf (run E o₂)).length :=
+  P34.leaf_count_order_independent E hsym hno o₁ o₂ hperm hnd hs₁ hs₂
+end Ties
